@@ -49,6 +49,7 @@ func (c *c19) Cases(tier string, seed int64) []core.Case {
 	nsets := map[string]int{"quick": 1, "thorough": 10}[tier]
 	parts := 8
 	cs = append(cs, core.MkCase("fixed-absurd-slice-size", c19Params{Seed: 5, Fmt: "par2", Family: "fixed-absurd-slice-size", Damage: "intact", Parts: 1}))
+	cs = append(cs, core.MkCase("fixed-par1-saved-counts", c19Params{Seed: 7, Fmt: "par1", Family: "fixed-par1-saved-counts", Damage: "intact", Parts: 1}))
 	cs = append(cs, core.MkCase("fixed-all-files-empty", c19Params{Seed: 6, Fmt: "par2", Family: "fixed-all-files-empty", Damage: "intact", Parts: 1}))
 	for s := 0; s < nsets; s++ {
 		sd := r.Int63()
@@ -639,10 +640,53 @@ func (c *c19) runFixedAllEmpty(r *core.R) {
 	r.Sample(map[string]interface{}{"family": "fixed-all-files-empty", "file_counts": []int{1, 2, 3}})
 }
 
+// runFixedPar1Counts: PAR1 indexes whose number of entries saved in the
+// parity set sits at and around the limit of GF(2^8) (255 data shards and at
+// least one parity shard: 256 in all), with valid control hashes.
+func (c *c19) runFixedPar1Counts(r *core.R) {
+	rng := rand.New(rand.NewSource(19))
+	for _, n := range []int{254, 255, 256, 257, 300} {
+		for _, extra := range []int{0, 2} {
+			for _, state := range []string{"present", "one-deleted"} {
+				root, err := os.MkdirTemp("", "c19N-")
+				if err != nil {
+					r.Inconclusive("tempdir: %v", err)
+					return
+				}
+				dir := filepath.Join(root, "set")
+				os.MkdirAll(dir, 0755)
+				var in []par1rw.InFile
+				for i := 0; i < n+extra; i++ {
+					f := par1rw.InFile{Name: fmt.Sprintf("n%03d.bin", i), Data: scen.GenData(rng, "random", 1+rng.Intn(12), 16), Saved: i >= extra}
+					in = append(in, f)
+					os.WriteFile(filepath.Join(dir, f.Name), f.Data, 0644)
+				}
+				if state == "one-deleted" {
+					os.Remove(filepath.Join(dir, in[extra+n/2].Name))
+				}
+				idx := filepath.Join(dir, "arch.par")
+				os.WriteFile(idx, par1rw.Build(in, 0, nil, 0x00010000), 0644)
+				for v := 1; v <= 2; v++ {
+					os.WriteFile(filepath.Join(dir, fmt.Sprintf("arch.p%02d", v)), par1rw.Build(in, v, par1rw.Parity(in, v), 0x00010000), 0644)
+				}
+				j := &c19Judge{fmt: "par1", dir: dir, idx: idx, root: root}
+				j.run(r, fmt.Sprintf("PAR1 index with %d entries saved in the parity set (+%d not saved), two volumes; %s", n, extra, state))
+				r.Key("fixed-par1-counts|%d|%d|%s", n, extra, state)
+				os.RemoveAll(root)
+			}
+		}
+	}
+	r.Sample(map[string]interface{}{"family": "fixed-par1-saved-counts", "saved_counts": []int{254, 255, 256, 257, 300}})
+}
+
 func (c *c19) Run(cs core.Case) core.Result {
 	var p c19Params
 	core.Decode(cs, &p)
 	r := core.NewR(cs)
+	if p.Family == "fixed-par1-saved-counts" {
+		c.runFixedPar1Counts(r)
+		return r.Done()
+	}
 	if p.Family == "fixed-all-files-empty" {
 		c.runFixedAllEmpty(r)
 		return r.Done()
